@@ -70,11 +70,11 @@ prop('C09',
 
 prop('C10',
      [('R00.dyn', RG.rule_no_dynamic), ('R10.d', RP.rule_definition), ('R03.d', RP.rule_core),
-      ('R10.k', RP.rule_cut_shift), ('R10.i', RP.rule_core_infinite),
+      ('R10.k', RP.rule_cut_shift), ('R10.i', RP.rule_core_infinite), ('R10.f', RP.rule_flag_truthiness),
       ('R10.w', RP.rule_wca), ('R10.p', RP.rule_purity), ('R10.h', RP.rule_history), ('R10.t', RP.rule_contact),
       ('R10.g', RD.rule_grid_products), ('R16.w', RP2.rule_wiring), ('R16.v', RPS.rule_wiring_concrete), ('R16.c', RP2.rule_copy_and_frame),
       ('R15.s', R15_DIAMETER)],
-     'Static analysis of pyPRISM/potential: constructors and calculate(r) of every Potential subclass are abstractly '
+     'Added later: high_value=+inf under IEEE rules (R10.i), boolean options passed as numpy.bool_ (R10.f), the concrete constructor wiring R16.v. Static analysis of pyPRISM/potential: constructors and calculate(r) of every Potential subclass are abstractly '
      'interpreted with symbolic parameters (stored lambdas inlined with their captured constructor arguments, '
      'super().calculate followed through the MRO) for every flag valuation (rcut None/given, shift); the piecewise '
      'term is compared region by region with the documented u(r) (spec/potentials.py); cut/shift continuity by '
@@ -104,8 +104,8 @@ prop('C07',
      [('R00.dyn', RG.rule_no_dynamic), ('R07.i', RD.rule_mutators), ('R07.g', RD.rule_grid),
       ('R07.t', RD.rule_roundtrip), ('R07.l', RD.rule_linearity), ('R08.t', RD.rule_prefactors),
       ('R07.m', RD.rule_matrixarray_transforms), ('R13.3', RM.rule_get_copy), ('R07.v', RG.rule_reshape_stores),
-      ('R07.j', RD.rule_two_domains)],
-     'Static analysis of pyPRISM/core/Domain.py: the constructor and the three property setters are abstractly '
+      ('R07.j', RD.rule_two_domains), ('R08.i', RD.rule_integer_spacing), ('R07.c', RD.rule_matrixarray_transforms_concrete)],
+     'Added later: the MatrixArray transforms are also executed on real MatrixArrays of concrete rank 1, 3 and 2 in turn on one Domain (R07.c); Domains built from an integer spacing and then re-spaced must equal float-spaced ones (R08.i); the constructor given both spacings is refused or consistent (R07.i). Static analysis of pyPRISM/core/Domain.py: the constructor and the three property setters are abstractly '
      'interpreted with symbolic length/spacings; after each mutator every grid attribute (_dr,_dk,_length,r,k,DST '
      'coefficient arrays,long_r) must equal, as a canonical term, that of a freshly constructed Domain with the same '
      'length and dr (an inductive invariant, so it covers every setter sequence); the grids must be dr*(1+iota(length)) '
@@ -117,7 +117,7 @@ prop('C07',
 
 prop('C08',
      [('R00.dyn', RG.rule_no_dynamic), ('R08.f', RD.rule_prefactors), ('R08.i', RD.rule_integer_spacing), ('R07.g', RD.rule_grid), ('R07.i', RD.rule_mutators)],
-     'Static analysis: the extracted transforms equal dst2(2 pi r dr f)/k and dst3(k dk/(4 pi^2) F)/r term by term '
+     'Added later: integer-typed spacings (R08.i: np.reciprocal, slice stores into an integer grid). Static analysis: the extracted transforms equal dst2(2 pi r dr f)/k and dst3(k dk/(4 pi^2) F)/r term by term '
      '(absolute prefactors of the 3-D radial pair: with the factor 2 built into DST-II/III, forward 4 pi and backward '
      '1/(2 pi^2)), DST types 2/3 without normalisation keywords, dk = pi/(dr*length), r_i=(i+1)dr, k_j=(j+1)dk. This is '
      'exactly the compensating-error class to which the round-trip test is blind.',
@@ -131,11 +131,11 @@ def _r13_arith(ctx):
 
 prop('C13',
      [('R00.dyn', RG.rule_no_dynamic), ('R13.1', RM.rule_members), ('R13.2', RM.rule_space_guard),
-      ('R13.5', _r13_arith), ('R13.b', RM.rule_broadcast), ('R13.6', RM.rule_dot_invert), ('R13.3', RM.rule_get_copy),
+      ('R13.5', _r13_arith), ('R13.b', RM.rule_broadcast), ('R13.6', RM.rule_dot_invert), ('R13.o', RM.rule_rank_one), ('R13.3', RM.rule_get_copy),
       ('R13.9', RM.rule_items),
       ('R13.u', RM.rule_unknown_names),
       ('R13.i', RM.rule_iterpairs), ('R13.I', RM.rule_identity), ('R13.h', RM.rule_history), ('R13.t', RM.rule_typemap)],
-     'Static analysis of pyPRISM/core/MatrixArray.py: every operator member is abstractly interpreted on a heap with '
+     'Added later: a row-vector operand of shape (rank,) (R13.5), dot/invert in Fourier space (R13.6/R13.7), the same right operand modified between two calls (R13.h), and every member executed on rank-1 arrays of the real class (R13.o; the symbolic worlds assume a generic rank >= 2). Static analysis of pyPRISM/core/MatrixArray.py: every operator member is abstractly interpreted on a heap with '
      'array identity for each operand kind (MatrixArray, scalar, ndarray): the result term must be the elementwise '
      'operation (einsum literal parsed to the batch matrix product for dot, linalg.inv for invert); out-of-place '
      'results must be new objects with fresh data and no write to either operand, in-place members must write only '
@@ -171,7 +171,7 @@ prop('C15',
      [('R00.dyn', RG.rule_no_dynamic), ('R15.f', R15_DENSITY), ('R15.s', R15_DIAMETER),
       ('R15.k', R15_CHECKS), ('R15.c', RDS.rule_total_no_stale_operand), ('R15.w', RDn.rule_who_may_write), ('R13.9', RM.rule_items),
       ('R14.m', R14_SETITEM), ('R14.k', R14_SETUNSET)],
-     'Static analysis of Density/Diameter by abstract execution of the real classes (with the real ValueTable, PairTable and '
+     'Added later: R15.c runs the Density setter in uninterpreted arithmetic: the expression that produces total after a re-assignment must not involve the overwritten value. Static analysis of Density/Diameter by abstract execution of the real classes (with the real ValueTable, PairTable and '
      'MatrixArray underneath) on concrete type lists of 1-4 labels -- strings and integers, boxed so that a label is equal to, '
      'never identical with, the entry of the type list -- over every bounded assignment history (single keys, list keys in both '
      'orders, one-shot iterables, re-assignment; one fresh symbol per assignment): density, total, pair and site in both orders, '
@@ -233,7 +233,7 @@ prop('C16',
      [('R00.dyn', RG.rule_no_dynamic), ('R16.x', _fb(RSS.rule_system_check, RP2.rule_system_check)), ('R16.i', RSS.rule_system_iterpairs), ('R16.d', RP2.rule_check_dominates),
       ('R16.c', RP2.rule_copy_and_frame), ('R16.w', RP2.rule_wiring), ('R16.v', RPS.rule_wiring_concrete), ('R14.c', R14_SETITEM),
       ('R14.k', R14_SETUNSET), ('R07.i', RD.rule_mutators)],
-     'Static analysis of System/PRISM construction: System.check is decided by executing the real System (real tables, Domain, '
+     'Added later: R16.v executes the real constructor on a real two-component System (types not in alphabetical order, real potentials and closures with symbolic parameters), fresh and after the System was re-configured in place, and compares every pair with what deep copies of the stored objects give outside the constructor; it also checks that the caller\'s System is left untouched. Static analysis of System/PRISM construction: System.check is decided by executing the real System (real tables, Domain, '
      'MatrixArrays) over concrete labels: the complete system passes without a write, each single omission (domain, a density, '
      'a diameter, a potential / closure / omega pair) is refused with ValueError, for string and integer labels; formerly: '
      'System.__init__ is interpreted to enumerate the tables it creates and '
@@ -300,7 +300,7 @@ def _r17_libnames(ctx):
 
 prop('C17',
      [('R00.dyn', RG.rule_no_dynamic), ('R17.d', RU.rule_conversions), ('R17.h', RU.rule_call_history), ('R17.r', RU.rule_registry_isolation), ('R17.c', RU.rule_definitions), ('R17.u', RU.rule_unit_literals)],
-     'Static analysis of pyPRISM/util/UnitConverter.py: the constructor and the six documented conversion methods are '
+     'Added later: functools.lru_cache and the registry identity of pint quantities are modelled; R17.r builds two converters from identical arguments; R17.h re-converts the same array object after its contents changed and checks that an earlier result is not overwritten; R17.l requires array in, array out for every array shape. Static analysis of pyPRISM/util/UnitConverter.py: the constructor and the six documented conversion methods are '
      'abstractly interpreted with pint quantities modelled as (magnitude term, unit monomial); the pinned pint registry is '
      'consulted as library metadata for existence, dimensionality, base factor and offset of every unit literal (a '
      'dimension mismatch raises DimensionalityError in the model exactly where pint would, which exercises the molar / '
